@@ -40,12 +40,12 @@ type c12rWrite struct {
 }
 
 type c12rData struct {
-	p       *Peer
-	sf      *LFeat
-	ev      *EventLog
-	ncb     int
-	timeout time.Duration
-	w1, w2  *c12rWrite
+	p                 *Peer
+	sf                *LFeat
+	ev                *EventLog
+	ncb               int
+	timeout           time.Duration
+	w1, w2            *c12rWrite
 	dropCall, dropRet uint64
 	cur               *c12rWrite // the write being handled right now
 }
